@@ -524,6 +524,27 @@ pub fn run_load(case: &Sx) -> Sx {
     ])
 }
 
+/// LOADCLEAN: case as LOAD; the text written after A2lFile::ifdata_cleanup()
+///   ( sOK s<text> <floattable> <a2mltable> ) | ( sERR <diag> <floattable> <a2mltable> ) | ( sPANIC [stage] <floattable> <a2mltable> )
+pub fn run_loadclean(case: &Sx) -> Sx {
+    let c = case.as_list();
+    let text = c[0].as_str();
+    let strict = c[1].as_int() != 0;
+    let spec: Option<String> = c[2].as_list().first().map(|s| s.as_str());
+    let (mut file, _log) = match load(&text, &spec, strict) {
+        Err(_) => return Sx::L(vec![Sx::s("PANIC"), floattable(&text), a2mltable(&text, &spec)]),
+        Ok(Err(e)) => return Sx::L(vec![Sx::s("ERR"), diag_a2l(&e), floattable(&text), a2mltable(&text, &spec)]),
+        Ok(Ok(v)) => v,
+    };
+    let Ok(written) = catch_unwind(AssertUnwindSafe(|| {
+        file.ifdata_cleanup();
+        file.write_to_string()
+    })) else {
+        return Sx::L(vec![Sx::s("PANIC"), Sx::s("cleanup"), floattable(&text), a2mltable(&text, &spec)]);
+    };
+    Sx::L(vec![Sx::s("OK"), Sx::s(&written), floattable(&text), a2mltable(&text, &spec)])
+}
+
 pub fn run_tokens(case: &Sx) -> Sx {
     let text = case.as_list()[0].as_str();
     match catch_unwind(AssertUnwindSafe(|| a2lfile::verif_hooks::tokenize("", &text))) {
